@@ -35,7 +35,7 @@ func runC14(c *Ctx) {
 	c.L.Floor("C14.hostport.tables", 4)
 	c.L.Floor("C14.url.pair", 2)
 	c.L.Floor("C14.duration.pair", 3)
-	c.L.Floor("C14.duration.cuts", 3)
+	c.L.Floor("C14.duration.cuts", 2)
 	c.L.Floor("C14.prefix.dispatch", 3)
 
 	// ---- R1: every UnmarshalJSON in the module ----
@@ -107,14 +107,31 @@ func runC14(c *Ctx) {
 					okH = true
 				}
 			}
-			if cv, ok := ret.Results[1].(*ssa.Convert); ok {
-				if ex, ok := cv.X.(*ssa.Extract); ok && ex.Index == 0 && pu != nil && ex.Tuple == ssa.Value(pu) {
-					// ParseUint's input is SplitHostPort's port text
-					if pe, ok := pu.Call.Args[0].(*ssa.Extract); ok && pe.Index == 1 {
-						okP = true
+			// per value that may arrive: the converted ParseUint result; a zero
+			// placeholder arrives only together with a non-nil error, under which
+			// this success return is not reached
+			fs := core.Facts(split)
+			nConv := 0
+			okP = true
+			for _, lf := range fs.Leaves(ret.Results[1], ret) {
+				isConv := false
+				if cv, ok := lf.V.(*ssa.Convert); ok {
+					if ex, ok := cv.X.(*ssa.Extract); ok && ex.Index == 0 && pu != nil && ex.Tuple == ssa.Value(pu) {
+						// ParseUint's input is SplitHostPort's port text
+						if pe, ok := pu.Call.Args[0].(*ssa.Extract); ok && pe.Index == 1 {
+							isConv = true
+						}
 					}
 				}
+				switch {
+				case isConv:
+					nConv++
+				case lf.From != nil && nilTextOnlyWithError(fs, ret, lf.From):
+				default:
+					okP = false
+				}
 			}
+			okP = okP && nConv > 0
 			c.check(okH && okP, "C14.hostport.tables", split, "success returns (SplitHostPort host, uint16(parsed port))", ret, "fields are not swapped or re-derived")
 		}
 		// JoinHostPort: net.JoinHostPort(Trim(host,"[]"), FormatUint(...))
@@ -247,7 +264,16 @@ func runC14(c *Ctx) {
 		}
 		c.check(okC, "C14.prefix.dispatch", f, "dispatch on the presence of '/' in the text", contains, "text with '/' is a prefix, text without is a bare address")
 		for _, ci := range core.CallsTo(f, "(*net/netip.Prefix).UnmarshalText") {
-			c.check(contains != nil && guardedByCall(ci, contains, true) && ci.Common().Args[1] == ssa.Value(b), "C14.prefix.dispatch", f, "with '/': netip.Prefix.UnmarshalText(b)", ci, "agrees with netip.ParsePrefix")
+			c.check(contains != nil && slashPresent(core.Facts(f).At(ci.Block()), contains) && ci.Common().Args[1] == ssa.Value(b), "C14.prefix.dispatch", f, "with '/': netip.Prefix.UnmarshalText(b)", ci, "agrees with netip.ParsePrefix")
+		}
+		// the bare-address parse is tried only when there is no '/': a zone may
+		// contain one ("fe80::1%a/64" is the prefix fe80::1%a / 64 to ParsePrefix)
+		for _, ci := range core.CallsTo(f, "(*net/netip.Addr).UnmarshalText") {
+			p, known := false, false
+			if contains != nil {
+				p, known = slashKnown(core.Facts(f).At(ci.Block()), contains)
+			}
+			c.check(known && !p, "C14.prefix.dispatch", f, "without '/': the text is parsed as a bare address", ci, "text containing '/' must go to netip.Prefix.UnmarshalText only")
 		}
 		for _, ci := range core.CallsTo(f, "net/netip.PrefixFrom") {
 			a0, a1 := ci.Common().Args[0], ci.Common().Args[1]
@@ -397,4 +423,39 @@ func sameLoad(a, b ssa.Value) bool {
 	ua, ok1 := a.(*ssa.UnOp)
 	ub, ok2 := b.(*ssa.UnOp)
 	return ok1 && ok2 && ua.Op == token.MUL && ub.Op == token.MUL && ua.X == ub.X
+}
+
+// slashPresent: the facts say that the presence test found the byte — the
+// Contains call is true, or the index it returned is not -1.
+func slashPresent(facts []core.Fact, test *ssa.Call) bool {
+	p, known := slashKnown(facts, test)
+	return known && p
+}
+
+func slashKnown(facts []core.Fact, test *ssa.Call) (present, known bool) {
+	for _, g := range facts {
+		cond, truth := core.StripNot(g.Cond, g.Truth)
+		if cond == ssa.Value(test) {
+			return truth, true
+		}
+		bo, ok := cond.(*ssa.BinOp)
+		if !ok || bo.X != ssa.Value(test) {
+			continue
+		}
+		k, isK := core.ConstInt(bo.Y)
+		if !isK {
+			continue
+		}
+		switch {
+		case bo.Op == token.EQL && k == -1:
+			return !truth, true
+		case bo.Op == token.NEQ && k == -1:
+			return truth, true
+		case bo.Op == token.GEQ && k == 0, bo.Op == token.GTR && k == -1:
+			return truth, true
+		case bo.Op == token.LSS && k == 0, bo.Op == token.LEQ && k == -1:
+			return !truth, true
+		}
+	}
+	return false, false
 }
